@@ -40,7 +40,11 @@ const (
 	idleSessionTimeout = time.Minute
 )
 
-var packetReplayCache = replay.NewCache(4*1024*1024, cipher.KeyRefreshInterval*3)
+// packetReplayCache is the same cache as streamReplayCache. Both transports use
+// the same keys and the same segment header, so a recorded stream segment can
+// be presented as a datagram and vice versa. A replay must be recognized no
+// matter which transport delivers it.
+var packetReplayCache = streamReplayCache
 
 type PacketUnderlay struct {
 	// ---- common fields ----
